@@ -147,6 +147,10 @@ fn templates(n: usize, k: i64, outer_x: bool) -> Vec<(String, E, Vec<(String, V)
     add("filter-truthy", method(l(), "filter", vec![x(), bin(Op::Rem, x(), ilit(3))]), false);
     add("map", method(l(), "map", vec![x(), bin(Op::Mul, seen(x()), ilit(2))]), false);
     add("map3", method(l(), "map", vec![x(), bin(Op::Lt, seen(x()), var("t")), bin(Op::Add, x(), var("y"))]), false);
+    // the transform of map(x,p,e) runs only for accepted elements (guard idiom): it would fail on the others
+    add("map3-guard", method(l(), "map", vec![x(), bin(Op::Ne, x(), var("t")), bin(Op::Div, ilit(100), bin(Op::Sub, x(), var("t")))]), inside);
+    add("map3-transform-only-accepted", method(l(), "map", vec![x(), bin(Op::Eq, bin(Op::Rem, x(), ilit(2)), ilit(0)), seen(x())]), n > 1);
+    add("map3-pred-fails-first", method(l(), "map", vec![x(), bin(Op::Gt, bin(Op::Div, ilit(100), bin(Op::Sub, x(), var("t"))), ilit(-1000)), seen(x())]), inside);
     // predicates that are truthy without being bool
     add("map3-truthy", method(l(), "map", vec![x(), bin(Op::Rem, seen(x()), ilit(3)), bin(Op::Add, x(), var("y"))]), n > 1);
     add("exists-truthy", method(l(), "exists", vec![x(), bin(Op::Sub, seen(x()), var("t"))]), inside);
